@@ -261,6 +261,8 @@ class MultiFit(FitBase):
                 _upper = _data_indices[_j + 1]
                 _combined_property[_lower:_upper, _lower:_upper] = _single_fit_property
             for _error_dict in self._shared_error_dicts.values():
+                if not _error_dict["enabled"]:
+                    continue
                 if _error_dict["axis"] != axis_name:
                     continue
                 _error = _error_dict["err"]
@@ -850,9 +852,23 @@ class MultiFit(FitBase):
         if _keys:
             warnings.warn("Could not assign all parameter latex names to single fits. Leftover: {}".format(_keys))
 
+    def _set_error_enabled(self, err_id, enabled):
+        _fits_with_error = [_fit for _fit in self._fits if err_id in _fit.get_matching_errors()]
+        if not _fits_with_error:
+            raise ValueError("No error with name '{}'!".format(err_id))
+        if err_id in self._shared_error_dicts:
+            self._shared_error_dicts[err_id]["enabled"] = enabled
+        for _fit in _fits_with_error:
+            if enabled:
+                _fit.enable_error(err_id=err_id)
+            else:
+                _fit.disable_error(err_id=err_id)
+
     def disable_error(self, err_id):
-        for _fit in self._fits:
-            _fit.disable_error(err_id=err_id)
+        self._set_error_enabled(err_id, False)
+
+    def enable_error(self, err_id):
+        self._set_error_enabled(err_id, True)
 
     def fix_parameter(self, name, value=None):
         self._fitter.fix_parameter(name=name, value=value)
